@@ -140,6 +140,19 @@ pub fn run(args: &Args) {
                 "relative_difference":fv(rd.iter()),"mard":fs(ds.mean_absolute_relative_difference(eos).unwrap_or(f64::NAN)),"costs":costs}));
             all.push(ds.clone());
         }
+        // vapor pressure above the critical temperature: extrapolation ln p = a + b / T through (Tc, pc) and (0.9 Tc, psat(0.9 Tc)), or NaN
+        {
+            let tsup: Vec<f64> = vec![1.01, 1.05, 1.2];
+            let temps_sup = Temperature::from_reduced(Array1::from_vec(tsup.iter().map(|f| tc.to_reduced() * f).collect()));
+            let dummy = Array1::from_vec(vec![1.0e6; tsup.len()]) * PASCAL;
+            let with: Arc<dyn DataSet<E>> = Arc::new(VaporPressure::new(dummy.clone(), temps_sup.clone(), true, Some(tc), None));
+            let without: Arc<dyn DataSet<E>> = Arc::new(VaporPressure::new(dummy, temps_sup.clone(), false, Some(tc), None));
+            let p0 = PhaseEquilibrium::pure(eos, tc * 0.9, None, SolverOptions::default()).map(|v| v.vapor().pressure(Contributions::Total).convert_into(PASCAL)).unwrap_or(f64::NAN);
+            tr.ev(json!({"ev":"VpExtrapolation","case":name,"Tc":fs(tc.to_reduced()),"pc_Pa":fs(cp.pressure(Contributions::Total).convert_into(PASCAL)),"p0_Pa":fs(p0),
+                "T":fv(temps_sup.to_reduced().iter()),
+                "extrapolated":fv(with.predict(eos).map(|a| a.to_vec()).unwrap_or_default().iter()),
+                "not_extrapolated":fv(without.predict(eos).map(|a| a.to_vec()).unwrap_or_default().iter())}));
+        }
         // perturbed targets: cost = loss(r)/n * w/sum(w)
         let pert: Vec<f64> = psat.iter().map(|p| p * (1.0 + rng.range(-0.4, 0.4))).collect();
         let ds1: Arc<dyn DataSet<E>> = Arc::new(VaporPressure::new(a(&pert) * PASCAL, temps.clone(), false, None, None));
